@@ -132,7 +132,11 @@ def run_batch(ctx, cases, rng):
 
 def shrink(ctx, trees, rng):
     cur = trees
+    import time
+    deadline = time.time() + 20          # shrinking runs the real tools: bounded, the unshrunk case is a replay too
     for _ in range(40):
+        if time.time() > deadline:
+            break
         cands = []
         if len(cur) > 2:
             for i in range(len(cur)):
